@@ -377,6 +377,11 @@ func (bm *ConnectedBitmask) Extract(bit uint) bool {
 		if e.max < bit {
 			return false
 		}
+		if e.min == bit && e.max == bit {
+			// remove the entry {bit, bit} (decrementing max first would wrap around for bit 0)
+			bm.entries = append(bm.entries[:i], bm.entries[i+1:]...)
+			return true
+		}
 		e.max--
 		if e.min < bit {
 			return true
